@@ -67,6 +67,8 @@ class C03(PropertyCheck):
             return [Fraction(rng.randint(-40, 40), 4) for _ in range(n)]
         if style == "neg":
             return [Fraction(-rng.randint(0, 9)) for _ in range(n)]
+        if style == "tiny":   # entries far below any plausible sparsity threshold, still exact doubles
+            return [Fraction(rng.randint(-8, 8), 2 ** rng.choice([10, 16, 20, 30])) for _ in range(n)]
         return [Fraction(rng.randint(0, 9)) for _ in range(n)]  # "pos"
 
     @staticmethod
@@ -91,11 +93,11 @@ class C03(PropertyCheck):
     def generate(self, tier, rng):
         quick = tier == "quick"
         hi = 9 if quick else 13
-        styles_v = ["int", "sparse", "dyadic", "neg", "pos"]
+        styles_v = ["int", "sparse", "dyadic", "neg", "pos", "tiny"]
         styles_k = ["signed", "signed", "asym_pos", "dyadic", "ramp"]
         # 0. every kernel shape in {1,3,5,7}^2 once, independent of the seed stream position
         shapes = [(a, b) for a in ODD for b in ODD]
-        n_rand = 160 if quick else 1600
+        n_rand = 300 if quick else 2400
         plan = shapes + [(rng.choice(ODD), rng.choice(ODD)) for _ in range(n_rand)]
         for idx, (kh, kw) in enumerate(plan):
             h, w = self._frame_for(rng, kh, kw, 5, hi)
@@ -108,7 +110,7 @@ class C03(PropertyCheck):
             # mapping matrix on the same convolver class: signed / sparse / fractional / negative-only
             n_un = sum(1 for r in m for b in r if not b)
             ncols = rng.randint(1, 4)
-            vs = rng.choice(["int", "sparse", "dyadic", "neg", "sparse"])
+            vs = rng.choice(["int", "sparse", "dyadic", "neg", "sparse", "tiny"])
             M = [self._values(rng, ncols, vs) for _ in range(n_un)]
             yield {"tag": f"matrix_{vs}", "kind": "matrix", "mask": mask_json(m), "kernel": K,
                    "matrix": qmat(M), "ncols": ncols}
@@ -116,14 +118,14 @@ class C03(PropertyCheck):
                 A2 = self._values(rng, h * w, rng.choice(styles_v))
                 yield {"tag": "same", "kind": "same", "h": h, "w": w, "kernel": K, "image": qlist(A2)}
         # 1. the whole operator on basis images (image and blurring pixels), small frames
-        for _ in range(12 if quick else 80):
+        for _ in range(20 if quick else 120):
             kh, kw = rng.choice((1, 3, 5)), rng.choice((1, 3, 5))
             h, w = self._frame_for(rng, kh, kw, 4, 7)
             m, mk = self._mask_with_margins(rng, h, w, kh // 2, kw // 2)
             K = self._kernel(rng, kh, kw, rng.choice(["ramp", "signed"]))
             yield {"tag": f"operator_{mk}", "kind": "operator", "mask": mask_json(m), "kernel": K}
         # 2. simulator -> apply_mask -> convolver: zero residual (kernel entries sum to 1: normalisation exact)
-        for _ in range(25 if quick else 200):
+        for _ in range(40 if quick else 300):
             kh, kw = rng.choice((1, 3, 5)), rng.choice((1, 3, 5))
             h, w = self._frame_for(rng, kh, kw, 5, 9)
             m, mk = self._mask_with_margins(rng, h, w, kh // 2, kw // 2)
